@@ -18,6 +18,9 @@ RULE = (
     '(frame edited in place, caller-defined center / scale helpers, refused frames between good ones, '
     'integer-typed later frames, keyword forms of poly / bs, group-specific transforms), the same whole '
     'numbers stored as int64 / int32 / int16 / int8 / uint8. '
+    'Later: df and knots together, an out-of-range knot anywhere in the list, vectors of 1201 values, a caller '
+    'array used as knots and refilled, an earlier fit of the same text on other data, fractional NumPy scalars '
+    'as df / degree. '
 )
 ASSUMPTIONS = [
     "tolerances are fixed constants scaled by the conditioning (offset/scale); the reference formulas pass them with two orders of magnitude to spare (see selftest)",
